@@ -26,6 +26,9 @@ pub struct ThCfg {
     pub damage: u8,
     pub damage_at: u32,
     pub damage_val: u8,
+    /// the application recycles one `Buffer` (`clear()`) for every stream it reads instead of a fresh one per stream
+    #[serde(default)]
+    pub reuse_buffer: bool,
 }
 
 #[derive(Clone, Debug, Serialize, Deserialize, PartialEq)]
@@ -425,9 +428,16 @@ struct Parsed {
     nesting_error: Option<String>,
 }
 
-fn parse(cb: &mut FragCb) -> Result<Parsed, PanicInfo> {
+fn parse(cb: &mut FragCb, recycled: Option<&mut th::Buffer>) -> Result<Parsed, PanicInfo> {
     guard(|| {
-        let mut buffer = th::Buffer::new();
+        let mut fresh = th::Buffer::new();
+        let mut buffer: &mut th::Buffer = match recycled {
+            Some(b) => {
+                b.clear();
+                b
+            }
+            None => &mut fresh,
+        };
         let mut items = Vec::new();
         let mut inner = Vec::new();
         let mut nesting_error = None;
@@ -567,6 +577,7 @@ impl Engine for ThEngine {
             damage,
             damage_at: c.next_u64() as u32,
             damage_val: *c.pick(&[0u8, 0xff, 0x7f, 0x80, 0x40, 0x3f, 1]),
+            reuse_buffer: c.chance(1, 3),
         };
         let n = match c.below(10) {
             0..=3 => c.range(1, 30),
@@ -655,7 +666,8 @@ impl Engine for ThEngine {
         ctx.logf(|| format!("stream: {} bytes, {} messages expected, finish={}, damage={}", bytes.len(), built.expect.len(), built.finished, cfg.damage));
         // reference: everything available is returned by each read
         let mut rcb = Self::cb(cfg, &bytes, true);
-        let reference = match parse(&mut rcb) {
+        let mut shared = th::Buffer::new();
+        let reference = match parse(&mut rcb, if cfg.reuse_buffer { Some(&mut shared) } else { None }) {
             Ok(p) => p,
             Err(p) => {
                 let class = if p.is_budget() { "unbounded-loop" } else { "panic" };
@@ -700,7 +712,7 @@ impl Engine for ThEngine {
         }
         // the same bytes under the fragmentation schedule
         let mut fcb = Self::cb(cfg, &bytes, false);
-        let frag = match parse(&mut fcb) {
+        let frag = match parse(&mut fcb, if cfg.reuse_buffer { Some(&mut shared) } else { None }) {
             Ok(p) => p,
             Err(p) => {
                 let class = if p.is_budget() { "unbounded-loop" } else { "panic" };
